@@ -52,7 +52,8 @@ def effective(sf, obs):
 
 
 ALPHABET = ([("setShape", k, a, inst) for k in KINDS for a in (("num", 0), ("num", 1), ("num", 3), ("fn", 1)) for inst in (False, True)]
-            + [("setAr", None, a, None) for a in (("num", 0), ("num", 1), ("num", 3), ("fn", 1))] + [("query", None, None, None)])
+            + [("setAr", None, a, None) for a in (("num", 0), ("num", 1), ("num", 3), ("fn", 1))] + [("query", None, None, None)]
+            + [("swapDesc", k, None, None) for k in KINDS])
 
 
 def run_history(ops):
@@ -69,9 +70,17 @@ def run_history(ops):
             elif op == "setAr":
                 sf.setAspectRatio(ar_value(a))
                 e.update(ar=list(a))
+            elif op == "swapDesc":
+                sf.description = KINDS[k]()               # the public property setter
+                e.update(kind=k)
             o = observe(sf, counter)
             if op == "query":
                 o["eff"] = effective(sf, o)
+                # the critical-radius search for the shape in force: R = Rs * thermoFactor(R) (constant aspect ratio: exactly; function: to 1e-3)
+                rs_, rm_ = 1.0e-9, 2.0e-8
+                rc = float(np.squeeze(sf.findRcrit(rs_, rm_)))
+                res_ = abs(rc / (rs_ * float(np.squeeze(sf.thermoFactor(rc)))) - 1.0)
+                o["rootok"] = bool(res_ <= (1e-9 if o["finder"] == "scalar" else 1e-3))
             e["obs"] = o
             ev.append(e)
     except Exception as ex:  # noqa
